@@ -140,3 +140,5 @@ def selftest():
 
 
 SUBCHECKS = {'dcm2q': Sub(lambda tier: _case(), evaluate, quick=16000, thorough=1000000)}
+
+FUZZ = True      # thorough tier additionally runs the atheris campaign of vf/fuzz/target.py
